@@ -154,19 +154,57 @@ for arch, vdef in ARCHS:
         d = dict(id="C09.%s@%s" % (id, arch), src="c09_quote.c", harness=harness, units=qu, defs=[vdef] + kw.pop("xdefs", []), arch=arch, route="L", timeout=900)
         d.update(kw)
         return d
-    C09_JOBS.append(c09("CopyAndGetEscapMask", "h_CopyAndGetEscapMask", function="CopyAndGetEscapMask",
+    C09_JOBS.append(c09("CopyAndGetEscapMask", "h_CopyAndGetEscapMask", function="CopyAndGetEscapMask", enforce="CopyAndGetEscapMask",
         claims="all VEC_LEN-byte blocks: copies exactly VEC_LEN bytes; mask bit i iff byte i is a quote, backslash or < 0x20; reads/writes exactly VEC_LEN bytes"))
+    VL = 32 if arch == "avx2" else 16
     for path, xd in (("production", []), ("sanitize", ["SANITIZE_PATH"])):
-        C09_JOBS.append(c09("Quote.%s" % path, "h_Quote", function="Quote (%s path)" % path, xdefs=xd + ["CONTRACT_ONLY_DoEscape"], route="U", enforce="Quote", replace=["DoEscape", "memcpy"],
-            loop_contracts=True, expect_loops=2, replay="quote",
-            claims="any nb <= 2^31-1, " + ("string at any offset of a whole-page object, ending up to its last byte" if not xd else "source heap block of exactly nb bytes") +
-                   ": no read outside the source object, writes only inside the 6*nb+35 reservation, result length in [nb+2, 6*nb+2], delimited by quotes; DoEscape preconditions hold at both call sites"))
-        C09_JOBS.append(c09("Quote.exact.%s" % path, "h_Quote_exact", function="Quote (%s path)" % path, xdefs=xd, route="B(nb<=2*VEC_LEN+8)", bound="nb <= 2*VEC_LEN+8",
-            unwind=2 * (32 if arch == "avx2" else 16) + 10, replay="quote",
-            claims="bounded: output bytes and length equal the RFC 8259 quoting of exactly the nb source bytes, for every content, every length up to two blocks + 8, every page offset; bytes behind the string unconstrained"))
+        C09_JOBS.append(c09("Quote.contract.%s" % path, "h_Quote", function="Quote (%s path)" % path, xdefs=xd + ["CONTRACT_ONLY_DoEscape", "QBOUND=%d" % (2 * VL + 8)],
+            route="B(nb<=2*VEC_LEN+8)", bound="nb <= %d" % (2 * VL + 8), enforce="Quote", replace=["DoEscape", "memcpy", "CopyAndGetEscapMask"],
+            unwind=2 * VL + 10, replay="quote",
+            claims="bounded (loops unwound, function contract enforced by DFCC, callees by contract): " + ("string at any offset of a whole-page object, ending up to its last byte" if not xd else "source heap block of exactly nb bytes") +
+                   ": no read outside the source object, writes only inside the 6*nb+35 reservation, result length in [nb+2, 6*nb+2], delimited by quotes; DoEscape / CopyAndGetEscapMask preconditions hold at every call site"))
+        C09_JOBS.append(c09("Quote.exact.%s" % path, "h_Quote_exact", function="Quote (%s path)" % path, xdefs=xd, route="B(nb<=2*VEC_LEN+8)", bound="nb <= %d" % (2 * VL + 8),
+            unwind=2 * VL + 10, replay="quote",
+            claims="bounded (real callees inlined): output bytes and length equal the RFC 8259 quoting of exactly the nb source bytes, for every content, every length up to two blocks + 8, every page offset; bytes behind the string unconstrained"))
 C09_JOBS.append(dict(id="C09.tables", src="c09_quote.c", harness="h_quote_tables", units=C09_JOBS[0]["units"], defs=["VEC_LEN=32"], arch="avx2", route="L", function="kQuoteTab / kNeedEscaped",
     replay="quotetab", claims="all 256 bytes: need-escape flag, escape length (0/2/6) and escape text equal RFC 8259 section 7; the 8 bytes DoEscape copies are readable"))
 C09_JOBS.append(dict(id="C09.DoEscape", src="c09_quote.c", harness="h_DoEscape", units=C09_JOBS[0]["units"], defs=["VEC_LEN=32"], arch="avx2", route="U", function="DoEscape",
     enforce="DoEscape", loop_contracts=True, expect_loops=1,
     claims="any nb >= 1 on exact-size blocks: reads only [src, src+nb), writes only [dst, dst+6*nb+2); consumes k >= 1 bytes, emits 2k..6k bytes, stops at the first byte needing no escape"))
 PROPS["C09"] = dict(level="other", jobs=C09_JOBS, trusted_base=COMMON_TRUST + MODEL_TRUST, assumptions=[], undecided=[], explanation="")
+
+
+# ===================================================================================== C16
+C16_UNITS = ["SONIC_ALIGN", "alloc.config", "ChunkHeader", "SharedData", "alloc.sizeof", "alloc.fields", "GetChunkHead", "GetChunkBuffer",
+             "MemoryPoolAllocator.Clear", "MemoryPoolAllocator.Capacity", "MemoryPoolAllocator.Size",
+             "SimpleChunkPolicy.ChunkSize", "AdaptiveChunkPolicy.ChunkSize", "MemoryPoolAllocator.AddChunk", "MemoryPoolAllocator.Malloc", "MemoryPoolAllocator.Realloc"]
+C16_JOBS = []
+for pol, pd in (("simple", []), ("adaptive", ["ADAPTIVE"])):
+    def c16(id, harness, **kw):
+        d = dict(id="C16.%s@%s" % (id, pol), src="c16_alloc.c", harness=harness, units=C16_UNITS, defs=pd + kw.pop("xdefs", []), arch=pol, route="L", timeout=900, small_cex=True,
+                 cbmc_unwindset="MemoryPoolAllocator_Capacity.0:4,MemoryPoolAllocator_Size.0:4,MemoryPoolAllocator_Clear.0:4")
+        d.update(kw)
+        return d
+    C16_JOBS.append(c16("ChunkSize", "h_ChunkSize", function="%sChunkPolicy::ChunkSize" % pol.capitalize(), enforce="ChunkPolicy_ChunkSize",
+        claims="any policy state, any request 1..2^62: result >= request; clz argument non-zero and shift < 64"))
+    C16_JOBS.append(c16("Malloc", "h_Malloc", function="MemoryPoolAllocator::Malloc (+AddChunk, GetChunkBuffer inlined)", enforce="MemoryPoolAllocator_Malloc",
+        replace=["ChunkPolicy_ChunkSize"], replay="pool_malloc",
+        claims="any well-formed pool, any size <= 2^62: 0 -> null; else null (base allocator failed, pool unchanged) or an 8-aligned block of align8(size) bytes wholly inside the head chunk directly after what was handed out before, or at the start of a fresh chunk pushed in front; frame: no byte of any chunk buffer is written"))
+    C16_JOBS.append(c16("Realloc", "h_Realloc", function="MemoryPoolAllocator::Realloc", xdefs=["UNIT_Realloc"], enforce="MemoryPoolAllocator_Realloc",
+        replace=["ChunkPolicy_ChunkSize", "memcpy"], replay="pool_realloc",
+        claims="any well-formed pool, old block anywhere in the pool: null old -> Malloc; new size 0 -> null; shrink -> same pointer, pool unchanged; grow -> in place only when it is the last block and fits in the head chunk, else a Malloc block whose first bytes equal the old contents (ghost index); old block untouched; frame: only bytes at or after the old bump pointer"))
+    if pol == "simple":
+        C16_JOBS.append(c16("Realloc.observe", "h_Realloc", function="MemoryPoolAllocator::Realloc", xdefs=["UNIT_Realloc", "OBSERVE_ALL"], enforce="MemoryPoolAllocator_Realloc",
+            replace=["ChunkPolicy_ChunkSize", "memcpy"], route="O", flags=["--no-pointer-primitive-check"] if False else [],
+            observe=[(r"pointer arithmetic: pointer outside object bounds in \(return_value_GetChunkBuffer \+ .*\) - \(signed long int\)originalSize", None)],
+            claims="observation only: with all checks on, CBMC flags the last-block test's pointer, formed below the head chunk for a large old block (compared, never dereferenced)"))
+    C16_JOBS.append(c16("disjoint", "h_disjoint", function="Malloc; Malloc (real bodies, two consecutive calls)", replace=["ChunkPolicy_ChunkSize"], replay="pool_malloc2",
+        claims="two consecutive allocations from any well-formed pool: blocks are disjoint and 8-aligned (Malloc's contract with a fresh-chunk clause cannot be assumed by CBMC at a call site, so the two calls run the real body)"))
+C16_LIFE = C16_UNITS + ["MemoryPoolAllocator.dtor",
+                        "MemoryPoolAllocator.copy_assign", "MemoryPoolAllocator.move_assign"]
+for hn, fn, cl in (("h_walks", "Clear / Size / Capacity", "pools of <= 3 chunks: Size/Capacity are the sums over the chunk list; Clear releases every chunk but the first exactly once and resets it"),
+                   ("h_dtor", "~MemoryPoolAllocator", "pools of <= 3 chunks, 1..3 owners: a non-last copy only decrements; the last copy releases all chunks and the owned shared block exactly once, never a user buffer"),
+                   ("h_copy_assign", "operator=(const MemoryPoolAllocator&)", "unrelated pools, two copies of one pool, and self-assignment: owner counts, release of the previous pool exactly when it lost its last owner, nothing released for aliases")):
+    C16_JOBS.append(dict(id="C16.%s" % hn[2:], src="c16_alloc.c", harness=hn, units=C16_LIFE, defs=["UNIT_Lifecycle"], arch="simple", route="B(<=3 chunks)", bound="chunk list length <= 3, capacities <= 64",
+                         function="MemoryPoolAllocator::" + fn, unwind=5, timeout=900, replay="pool_life", claims="bounded: " + cl))
+PROPS["C16"] = dict(level="other", jobs=C16_JOBS, trusted_base=COMMON_TRUST, assumptions=[], undecided=[], explanation="")
